@@ -363,7 +363,9 @@ def gen_split_case(rng):
     def multi(pk, phases=None):
         ph = phases or sorted(rng.sample(['g', 'l', 's'] if rng.random() < 0.7 else PHASES, rng.choice([1, 2, 2, 3])))
         return {'pkg': pk, 'multi': True, 'phases': ph, 'flows': [row() if pk == k else [float(rng.choice(VALS)) for _ in PKGS[pk]] for _ in ph]}
-    feeds = [multi(k) for _ in range(rng.choice([2, 2, 3]))]
+    base = sorted(rng.sample(['g', 'l', 's'], rng.choice([1, 2])))           # nested phase sets: a feed that gained a phase
+    wider = sorted(set(base) | set(rng.sample(['g', 'l', 's'], rng.choice([1, 2]))))
+    feeds = [multi(k, base), multi(k, wider)] + [multi(k) for _ in range(rng.choice([0, 0, 1]))]
     outs = []
     for _ in range(rng.choice([2, 2, 3])):
         pk = k if rng.random() < 0.75 else rng.choice([0, 2, 4])
@@ -378,7 +380,7 @@ def gen_split_case(rng):
     for _ in range(rng.choice([2, 3, 3, 4])):
         u = rng.random()
         if u < 0.7:
-            f = rng.randrange(nf)
+            f = min(len([o for o in ops if o[0] == 'split']), nf - 1) if rng.random() < 0.6 else rng.randrange(nf)
             s1, s2 = rng.sample(range(nf, nf + no), 2)
             sp = float(rng.choice(SPLITS)) if rng.random() < 0.6 else [float(rng.choice(SPLITS)) for _ in range(n)]
             ops.append(['split', f, s1, s2, sp, rng.random() < 0.75])
@@ -386,6 +388,36 @@ def gen_split_case(rng):
             ops.append(['mix', rng.randrange(nf), [rng.randrange(nf + no) for _ in range(rng.choice([1, 2]))], rng.random() < 0.3, 0])
         else:
             ops.append(['scale', rng.randrange(nf + no), float(rng.choice(KS))])
+    return {'streams': streams, 'ops': ops}
+
+def gen_case_pair_case(rng):
+    """phases that differ only by case (l/L, s/S) held together by an inlet while the multi-phase receiver has only one
+    of them: the upper/lower-case fallbacks must not fold two rows into one"""
+    k = rng.choice([0, 1, 2, 4])
+    ki = k if rng.random() < 0.6 else rng.choice([0, 1, 2, 4])
+    pair = rng.choice([['L', 'l'], ['S', 's']])
+    extra = rng.sample(['g'] + [p for p in PHASES if p.lower() != pair[0].lower()], rng.choice([0, 0, 1]))
+    iph = sorted(set(pair + extra))
+    rph = sorted(set([rng.choice(pair)] + rng.sample(['g', 'l', 's'], rng.choice([0, 1, 2]))) - ({pair[0], pair[1]} - {None}) | {rng.choice(pair)})
+    def row(pk, dense=0.8): return [float(rng.choice(VALS[1:])) if rng.random() < dense else 0. for _ in PKGS[pk]]
+    recv = {'pkg': k, 'multi': True, 'phases': rph, 'flows': [row(k, 0.3) for _ in rph]}
+    inlet = {'pkg': ki, 'multi': True, 'phases': iph, 'flows': [row(ki) for _ in iph]}
+    empty = {'pkg': k, 'multi': False, 'phases': [rng.choice(['l', 'g'])], 'flows': [[0.] * len(PKGS[k])]}
+    other = gen_stream(rng, pkg=k)
+    single = {'pkg': k, 'multi': False, 'phases': [rng.choice(['l', 'g', 's'])], 'flows': [row(k, 0.2)]}
+    streams = [recv, inlet, empty, other, single]
+    ops = []
+    for _ in range(rng.choice([1, 2, 2, 3])):
+        u = rng.random()
+        r = rng.choice([0, 0, 0, 4])
+        if u < 0.5:
+            ops.append(['mix', r, [1] + ([2] if rng.random() < 0.5 else []), True, 0])          # copy_like path
+        elif u < 0.75:
+            ops.append(['mix', r, [1, rng.choice([2, 3, 0])], rng.random() < 0.5, 0])
+        elif u < 0.9:
+            ops.append(['sep', 0, 1])
+        else:
+            ops.append(['copy_flow', 0, 1, None, rng.random() < 0.5, False, rng.choice([None] + pair)])
     return {'streams': streams, 'ops': ops}
 
 def gen_case(rng):
@@ -400,6 +432,8 @@ def gen_case_family(rng):
         return gen_alias_case(rng)
     if 0.27 <= u < 0.35:
         return gen_split_case(rng)
+    if 0.35 <= u < 0.40:
+        return gen_case_pair_case(rng)
     if u < 0.15:
         return gen_cache_case(rng)
     if u < 0.27:
@@ -629,7 +663,9 @@ def cop(o):
 def chandle(h, case=None):
     if h[0] == 'proxy': return f'(HProxy {cnat(h[1])} {PHC[h[2]]})'
     if h[0] == 'link': return f'(HLink {cnat(h[1])} {clist([PHC[p] for p in case["streams"][h[1]]["phases"]])})'
-    return f'(HView {cnat(h[1])} {PHC[h[2]]})'
+    ph = case['streams'][h[1]]['phases'] if case else [h[2]]
+    bound = h[2] if h[2] in ph else h[2].swapcase()          # the row object multistream[label] wraps
+    return f'(HView {cnat(h[1])} {PHC[bound]} {PHC[h[2]]})'
 
 def castore(case, out):
     n = len(case['streams'])
@@ -801,11 +837,6 @@ def oracle(case):
             ne = sum(1 for i in ins if any(tot0[i][n] != 0 for n in NAMES))
             where = (f'mix:recv={kinds[r]}:inlets={"".join(sorted(set(kinds[i] for i in ins)))}:nonempty={min(ne, 2)}:eb={int(eb)}:hf={min(hf, 2)}'
                      f':self={int(r in ins)}:otherpkg={int(any(pkg_of(store[i]) != pkg_of(store[r]) for i in ins))}')
-            nonempty = [i for i in ins if any(tot0[i][n] != 0 for n in NAMES)]
-            if (eb and kinds[r] == 'M' and len(nonempty) == 1 and nonempty[0] != r and not raised
-                    and r < len(store) and nonempty[0] < len(store) and shares(store[nonempty[0]], store[r])):
-                # class already present in the unchanged tree: stable key
-                where = 'mix:recv=M:only-inlet-is-own-sub-stream:eb=1'
             if raised:
                 # a RuntimeError with hf > 0 is the (oracle) temperature solver giving up
                 if pre and not (eb and hf > 0 and raised == 'RuntimeError'):
@@ -1002,6 +1033,18 @@ CORPUS = [
     {'streams': [_m(1, ['g', 'l'], [[1., 0, 0], [0, 2., 4.]]), _s(1, 's', [0, 1., 1.]), _s(1, 'l', [8., 0, 0]), _s(1, 'l', [0, 0, 0]), _s(1, 'g', [0, 0, 0])],
      'handles': [['view', 0, 'l'], ['view', 0, 'g']],
      'ops': [['mix', 0, [1, 2, 0], False, 0], ['mix', 3, [5], True, 0], ['split', 0, 3, 4, 0.5, True]]},
+    # in-place scaling by 0 (and 2) with the mass-flow views built before
+    {'streams': [_s(1, 'l', [1., 2., 0]), _m(1, ['g', 'l'], [[1., 0, 0], [0, 2., 4.]])], 'mass_views': True,
+     'ops': [['scale', 0, 0.], ['scale', 1, 0.], ['mix', 0, [1], False, 0], ['scale', 0, 2.]]},
+    # the same multi-phase outlet is split into twice, the second feed has one phase more (phases setter on a used MultiStream)
+    {'streams': [_m(1, ['l'], [[2., 0, 4.]]), _m(1, ['g', 'l'], [[1., 2., 0], [0, 4., 8.]]), _m(1, ['l', 's'], [[9., 5., 0], [0, 0, 0]]), _s(1, 'l', [0, 0, 0])],
+     'ops': [['split', 0, 2, 3, 0.5, True], ['split', 1, 2, 3, 0.25, True]]},
+    # an inlet holding flow in 'l' and 'L' copied into a receiver that has only 'l' (one non-empty inlet, energy balance)
+    {'streams': [_m(1, ['g', 'l'], [[0, 0, 0], [0, 0, 1.]]), _m(1, ['L', 'l'], [[2., 0, 0], [1., 0, 8.]]), _s(1, 'g', [0, 0, 0])],
+     'ops': [['mix', 0, [1, 2], True, 0]]},
+    # fixed in a4a2555: an energy-balanced mix whose only non-empty inlet is one of the receiver's own sub-streams
+    {'streams': [_m(1, ['g', 'l'], [[1., 0, 0], [0, 2., 4.]]), _s(1, 'g', [0, 0, 0])], 'handles': [['view', 0, 'l']],
+     'ops': [['mix', 0, [2, 1], True, 0], ['mix', 0, [2], True, 0]]},
     # mix then separate (same and other package, self inlet)
     {'streams': [_s(0, 'l', [1., 2., 0, 0, 0, 0]), _s(1, 'g', [4., 0.5, 0]), _m(2, ['g', 'l'], [[0, 0, 0, 0, 1., 0], [0, 0, 0, 8., 0, 3.]])],
      'ops': [['mix', 0, [0, 1, 2, 0], False, 0], ['sep', 0, 2]]},
@@ -1023,11 +1066,11 @@ _ALL_WITNESSES = [
     {'key': 'C01:mix:fallback-with-inlet-sharing-receiver-data',
      'case': {'streams': [_s(1, 'l', [1., 2., 0]), _s(1, 'g', [0, 4., 4.])], 'handles': [['proxy', 0, 'l']],
               'ops': [['mix', 0, [2, 1], True, 2]]}},
+    {'key': 'C01:mix:recv=M:inlet-is-linked-MultiStream',
+     'case': {'streams': [_m(1, ['l', 's'], [[1., 0, 0], [0, 2., 4.]]), _s(1, 'g', [0, 1., 1.])], 'handles': [['link', 0]],
+              'ops': [['mix', 0, [2, 1], False, 0]]}},
     {'key': 'C01:copy_flow:onto-itself:remove=1',
      'case': {'streams': [_s(1, 'l', [4., 1., 2.])], 'ops': [['copy_flow', 0, 0, None, True, False, None]]}},
-    {'key': 'C01:mix:recv=M:only-inlet-is-own-sub-stream:eb=1',
-     'case': {'streams': [_m(1, ['g', 'l'], [[1., 0, 0], [0, 2., 4.]])], 'handles': [['view', 0, 'l']],
-              'ops': [['mix', 0, [1], True, 0]]}},
 ]
 def _recorded():
     import os, re
